@@ -22,7 +22,9 @@ Import ListNotations.
 Inductive fn : Type :=
 | FExp | FRelu | FGelu | FTanh | FSelu | FPrelu | FSigmoid
 | FScale        (* multiplication by a configuration constant: d_head**-0.5, 1/sqrt(d), sqrt(0.5) *)
-| FGammaMinus.  (* x |-> gamma - x  (TabNet prior update) *)
+| FGammaMinus   (* x |-> gamma - x  (TabNet prior update) *)
+| FNeg          (* x |-> -x *)
+| FRsqrtEps.    (* x |-> 1 / sqrt(x + eps)  (batch norm) *)
 
 Record Ops (R : Type) : Type := mkOps {
   o0 : R;
@@ -157,6 +159,17 @@ Definition ez_fn (f : fn) (a : option Z) : option Z :=
   end.
 Definition ez_ops : Ops (option Z) := mkOps _ (Some 0%Z) (Some 1%Z) ez_add ez_mul ez_div ez_fn None.
 
+(* Instance 2b: plain integers where "exp" underflows: exp x = 0 for x <= -50000.  The additive mask
+   -100000 then kills every score s with |s| <= 40000 -- and does NOT kill a score of 200000: the
+   boundedness premise of the causality theorem is necessary, exactly as for IEEE floats. *)
+Definition zb_fn (f : fn) (x : Z) : Z :=
+  match f with
+  | FExp => if (x <=? -50000)%Z then 0%Z else (x * x + 1)%Z
+  | _ => x
+  end.
+Definition zb_ops : Ops Z := mkOps Z 0%Z 1%Z Z.add Z.mul Z.div zb_fn (-100000)%Z.
+Definition zb_bounded (s : Z) : Prop := (Z.abs s <= 40000)%Z.
+
 (* ------------------------------------------------------------------ *)
 (* Instance 3: provenance.  A scalar is
      PZero       exactly zero (neutral for +, absorbing for * and /),
@@ -164,7 +177,13 @@ Definition ez_ops : Ops (option Z) := mkOps _ (Some 0%Z) (Some 1%Z) ez_add ez_mu
      PVal s      a value computed from the input positions in s. *)
 Inductive prov : Type := PZero | PNegBig | PVal (s : list N).   (* ids are binary numbers: cheap comparison *)
 
-Definition punion (a b : list N) : list N := nodup N.eq_dec (a ++ b).
+(* set union on duplicate-free lists, boolean comparisons only (cheap under vm_compute): cost |b| * |result| *)
+Fixpoint add_all (xs acc : list N) : list N :=
+  match xs with
+  | [] => acc
+  | x :: r => add_all r (if existsb (N.eqb x) acc then acc else x :: acc)
+  end.
+Definition punion (a b : list N) : list N := add_all b a.
 
 Definition padd (a b : prov) : prov :=
   match a, b with
@@ -198,10 +217,13 @@ Definition prov_ops : Ops prov := mkOps _ PZero (PVal []) padd pmul pdiv pfn PNe
 
 (* the input positions a scalar / vector / matrix depends on *)
 Definition pdeps (a : prov) : list N := match a with PVal s => s | _ => [] end.
-Definition vdeps (v : list prov) : list N := nodup N.eq_dec (flat_map pdeps v).
-Definition mdeps (m : list (list prov)) : list N := nodup N.eq_dec (flat_map vdeps m).
-Definition tdeps (t : list (list (list prov))) : list N := nodup N.eq_dec (flat_map mdeps t).
-Definition memb (x : nat) (s : list N) : bool := existsb (N.eqb (N.of_nat x)) s.
+Definition vdeps (v : list prov) : list N := fold_left (fun acc x => add_all (pdeps x) acc) v [].
+Definition mdeps (m : list (list prov)) : list N := fold_left (fun acc v => add_all (vdeps v) acc) m [].
+Definition tdeps (t : list (list (list prov))) : list N := fold_left (fun acc m => add_all (mdeps m) acc) t [].
+Definition membN (x : N) (s : list N) : bool := existsb (N.eqb x) s.
+Definition memb (x : nat) (s : list N) : bool := membN (N.of_nat x) s.
+(* the id of cell (r, c): off + r * stride + c, computed in binary *)
+Definition cell_id (off stride r c : nat) : N := (N.of_nat off + N.of_nat r * N.of_nat stride + N.of_nat c)%N.
 
 (* a torch block that mixes all entries of the vector it acts on (nn.Linear, LayerNorm, an MLP):
    every one of the n outputs depends on every input of the vector *)
